@@ -35,6 +35,20 @@ pub fn rule_has_mwmo(version: u8, wmo_only: bool) -> bool {
     wmo_only || version < 3
 }
 
+/// The library's statement of the same rule, compared for every version × map kind.
+pub fn check_version_rule(version: u8, wmo_only: bool) -> CaseResult {
+    let cfg = wow_wdt::version::VersionConfig::new(VERSIONS[version as usize]);
+    let got = guard("VersionConfig::should_have_chunk", || cfg.should_have_chunk("MWMO", wmo_only))?;
+    if got != rule_has_mwmo(version, wmo_only) {
+        vfail!(
+            format!("wdt-version-rule-MWMO-differs-from-documented:{}:{}", VNAMES[version as usize], if wmo_only { "wmo-only" } else { "terrain" }),
+            "should_have_chunk(\"MWMO\", wmo_only={wmo_only}) = {got} for {:?}; documented: WMO-only maps always, terrain maps only before Cataclysm",
+            VERSIONS[version as usize]
+        );
+    }
+    Ok(())
+}
+
 /// deterministic value hash (own code, not the generator library): used to expand fills
 pub fn h(seed: u32, a: u32, b: u32, c: u32) -> u32 {
     let mut z = (seed as u64).wrapping_mul(0x9e3779b97f4a7c15)
